@@ -32,7 +32,7 @@ Record wf_spec := {
   wf_tasks : list (string * task_spec) }.  (* declaration order *)
 
 Definition empty_task_spec : task_spec :=
-  {| ts_action := JNull; ts_input := JDict []; ts_with := None; ts_delay := JNull;
+  {| ts_action := JNull; ts_input := JNull; ts_with := None; ts_delay := JNull;
      ts_join := JNull; ts_next := [] |}.
 
 (* spec.tasks.get_task(name): reserved names give an empty TaskSpec *)
